@@ -70,10 +70,26 @@ def jitter(rng, wp, xs, keep_ends=False):
     return out
 
 
-def gen_pool(rng, wp, nmin=2, nmax=6, nspk=8):
+def gen_long(rng, wp):
+    """a train of 258..420 spikes: beyond CPython's small-int cache (an `is` on a spike index), numpy's
+    summary printing threshold is at 1000, typical block sizes at powers of two"""
+    t0, t1 = edges(wp)
+    n = rng.randint(258, 420)
+    s = set(t0 + rng.random() * wp['T'] * rng.choice([1.0, 1.0, 0.9]) for _ in range(n))
+    if rng.random() < 0.3:
+        s.add(t1)
+    if rng.random() < 0.2:
+        s.add(t0)
+    return sorted(s)
+
+
+def gen_pool(rng, wp, nmin=2, nmax=6, nspk=8, long_p=0.0):
     """list of valid trains on the common interval, with copies / near-copies / shared spikes"""
     n = rng.randint(nmin, nmax)
     pool = []
+    if long_p and rng.random() < long_p:
+        pool.append(gen_long(rng, wp))
+        n = max(1, min(n, 3) - 1)
     for k in range(n):
         r = rng.random()
         if pool and r < 0.05:
